@@ -10,6 +10,8 @@ ERRS = {"ok": "EOk", "init": "EOk", "insufficient": "EInsufficient", "lesstime":
         "payload": "EPayload", "toomany": "ETooMany", "invalidcand": "EInvalidCand",
         "notsupported": "ENotSupported", "invalidid": "EInvalidId", "toofew": "ETooFew", "panic": "EPanic"}
 DELAY = 86400
+BOUNDARY = {72: 2 ** 72, 80: 2 ** 80, 88: 2 ** 88}      # 9|10, 10|11, 11|12 byte amounts
+MAX_AER = 5 * 10 ** 26
 
 
 def addr(i):
@@ -36,11 +38,22 @@ def gen_scenario(rng, ver=None, nacc=None, nops=None, twins=False, dao_bias=0.25
     nacc = nacc or rng.randrange(2, 6)
     nops = nops or rng.randrange(8, 28)
     ncand = rng.randrange(2, 7)
-    accounts = [{"addr": addr(i).hex(), "bal": str(rng.choice([3, 5, 10]) * S + rng.randrange(0, 1000))} for i in range(nacc)]
+    # amounts chosen from few values so that equal tallies (ties) are frequent ...
+    amts = [S, S, 2 * S, 3 * S, S + 1, S // 2, 0, 10 * S]
+    big = rng.random() < 0.45
+    if big:
+        # ... or from values whose big-endian encodings have DIFFERENT BYTE LENGTHS (9..12 bytes:
+        # around 2^72, 2^80, 2^88 aer, just above / below powers of 256, the maximum supply), so that
+        # partial unstakes move a stake and its votes across a length boundary: any byte-wise
+        # comparison in place of big.Int.Cmp is then observable
+        B = BOUNDARY
+        amts = [S, 2 * S, B[80], B[80] + 1, B[80] - 1, B[80] + S, B[80] + S // 2, B[80] - S + 5, 13 * 10 ** 23, 115 * 10 ** 22,
+                2 * 10 ** 23, B[88], B[88] + 1, B[88] - 1, B[88] - B[80], B[72] + S, 256 ** 10 - 1, 256 ** 11 - 1, MAX_AER, 1, 0]
+        accounts = [{"addr": addr(i).hex(), "bal": str(rng.choice([MAX_AER, 2 * MAX_AER, B[88] + B[80] + 7]))} for i in range(nacc)]
+    else:
+        accounts = [{"addr": addr(i).hex(), "bal": str(rng.choice([3, 5, 10]) * S + rng.randrange(0, 1000))} for i in range(nacc)]
     ops = []
     no = 1
-    # amounts chosen from few values so that equal tallies (ties) are frequent
-    amts = [S, S, 2 * S, 3 * S, S + 1, S // 2, 0, 10 * S]
     staked = set()
     for _ in range(nops):
         r = rng.random()
@@ -49,7 +62,7 @@ def gen_scenario(rng, ver=None, nacc=None, nops=None, twins=False, dao_bias=0.25
             ops.append({"op": "stake", "who": who, "amt": str(rng.choice(amts))})
             staked.add(who)
         elif r < 0.36:
-            ops.append({"op": "unstake", "who": who, "amt": str(rng.choice(amts + [S, 2 * S]))})
+            ops.append({"op": "unstake", "who": who, "amt": str(rng.choice(amts + [S, 2 * S, 2 * 10 ** 23 if big else S]))})
         elif r < 0.62:
             k = rng.choice([0, 1, 1, 2, 2, 3, 4])
             cs = []
@@ -77,6 +90,46 @@ def gen_scenario(rng, ver=None, nacc=None, nops=None, twins=False, dao_bias=0.25
     no += 1
     ops.append({"op": "block", "no": no})
     ops.append({"op": "reload"})
+    return {"ver": ver, "bpcount": 3, "start": 1, "accounts": accounts, "ops": ops}
+
+
+def gen_crossing_scenario(rng):
+    """directed: stakes just above a byte-length boundary of the amount encoding (2^72, 2^80, 2^88
+    aer), ballots on them, the lock period passes, partial unstakes that take the stake to just
+    below / exactly at / still above the boundary (so the recorded votes must be shrunk across a
+    change of byte length), then re-votes and a second round"""
+    nacc = rng.randrange(2, 5)
+    ver = rng.choice([1, 2, 3, 4])
+    accounts = [{"addr": addr(i).hex(), "bal": str(2 * MAX_AER)} for i in range(nacc)]
+    ops, no = [], 1
+    stake = {}
+    for w in range(nacc):
+        b = BOUNDARY[rng.choice([80, 80, 88, 72])]
+        if b < S:
+            b = 256 ** 10          # smallest boundary above the minimum stake
+        stake[w] = b + rng.choice([1, 1000, S // 3, S, 7 * S, 91 * 10 ** 21])
+        ops.append({"op": "stake", "who": w, "amt": str(stake[w])})
+    no += 1
+    ops.append({"op": "block", "no": no})
+    for w in range(nacc):
+        ops.append({"op": "votebp", "who": w, "cands": [cand(rng.randrange(3)).hex() for _ in range(rng.randrange(1, 3))]})
+        if ver >= 2 and rng.random() < 0.5:
+            ops.append({"op": "votedao", "who": w, "id": rng.choice(["GASPRICE", "NAMEPRICE", "BPCOUNT"]), "val": [rng.choice(["60000000000", "7", "13"])]})
+    for rnd in range(2):
+        no += DELAY + rng.choice([0, 1])
+        ops.append({"op": "block", "no": no})
+        for w in range(nacc):
+            b = max(x for x in (256 ** 9, 256 ** 10, 256 ** 11) if x <= stake[w]) if stake[w] >= 256 ** 9 else 0
+            target = rng.choice([b - 1, b - S // 2, b, b + 1, stake[w] - S, b - 200 * 10 ** 21])
+            amt = stake[w] - target
+            if 0 < amt <= stake[w] and (target == 0 or target >= S):
+                ops.append({"op": "unstake", "who": w, "amt": str(amt)})
+                stake[w] = target
+        no += 1
+        ops.append({"op": "block", "no": no})
+        if rng.random() < 0.5:
+            ops.append({"op": "reload"})
+    ops.append({"op": "block", "no": no + 1})
     return {"ver": ver, "bpcount": 3, "start": 1, "accounts": accounts, "ops": ops}
 
 
